@@ -98,6 +98,10 @@ type GenOpts struct {
 	V1           int // percent of legacy documents
 	MaxRelays    int
 	MaxProposers int
+	// AvoidKnown keeps the documents away from the C10 findings (a disabled
+	// relay that is not inherited; legacy entries that rely on field-wise
+	// fall-back to default_config), so that C11/C12 judge their own property.
+	AvoidKnown bool
 }
 
 // GenDocV2 draws a version 2 document.
@@ -139,6 +143,15 @@ func GenDocV2(p *simrt.Tape, o GenOpts) *DocV2 {
 			} else {
 				re.Vals = genVals(p, density, true)
 			}
+			if o.AvoidKnown && re.Disabled {
+				inherited := false
+				for _, t := range d.Relays {
+					inherited = inherited || t.Addr == re.Addr
+				}
+				if !inherited || e.Reset {
+					continue
+				}
+			}
 			e.Relays = append(e.Relays, re)
 		}
 		d.Proposers = append(d.Proposers, e)
@@ -161,7 +174,7 @@ func genV1Builder(p *simrt.Tape) *V1Builder {
 // GenDocV1 draws a legacy document.
 func GenDocV1(p *simrt.Tape, o GenOpts) *DocV1 {
 	d := &DocV1{Default: &V1Entry{}}
-	if p.Pct(92) {
+	if p.Pct(92) || o.AvoidKnown {
 		f := p.Pick(10)
 		d.Default.Fee = &f
 	}
@@ -175,6 +188,12 @@ func GenDocV1(p *simrt.Tape, o GenOpts) *DocV1 {
 	np := p.Range(0, 3)
 	for _, k := range pickDistinct(p, np, o.NVals) {
 		e := V1Entry{Key: k}
+		if o.AvoidKnown {
+			f, g := p.Pick(10), GasPool[p.Pick(len(GasPool))]
+			e.Fee, e.Gas, e.Builder = &f, &g, genV1Builder(p)
+			d.Proposers = append(d.Proposers, e)
+			continue
+		}
 		if p.Pct(75) {
 			f := p.Pick(10)
 			e.Fee = &f
